@@ -8,6 +8,7 @@ R3  sample/bin timing: force_bin is refreshed from bin on every path through upd
 R4  update_system_force subtracts the previously applied ABF force exactly when the variable neither subtracts
     applied forces itself nor reports same-step total forces
 R6  the gradient grid and the count grid it normalises by have one shape (shared with C15-R8)
+R7  the bin of a value is found by rounding down (shared with C15-R9)
 """
 from . import expr as X
 from . import cond as C
@@ -170,8 +171,14 @@ def r6(F, rep):
     companion_shape(F, rep, "C04-R6")
 
 
+def r7(F, rep):
+    from .rules_c15 import r9
+    r9(F, rep, "C04-R7")
+
+
 def run(F, rep, tier):
     r6(F, rep)
+    r7(F, rep)
     r1(F, rep)
     r2(F, rep)
     r3(F, rep)
